@@ -544,6 +544,16 @@ fn hi_limit(cx: &mut Cx, radix: u32) {
         }
         large = q;
     }
+    // quotient limbs exactly equal to div_limb: every power of div_limb up to 32 limbs, at its own limb count and one more
+    let mut p = vec![1u64];
+    for _ in 1..=40 {
+        p = trim(vmul(&p, &[d]));
+        if p.len() > 32 { break; }
+        for x in [p.clone(), trim(vsub(&p, &[1])), trim(vadd(&p, &[1]))] {
+            fmt_boxed(cx, radix, x.len().max(1), &x);
+            fmt_boxed(cx, radix, x.len() + 1, &x);
+        }
+    }
     let mut done = 0;
     for (hi, l) in [(hi_max, l_min), (hi_max, MAX), (hi_max, l_min.wrapping_sub(1)), (hi_max - 1, MAX), (hi_max + 1, l_min), (hi_max, l_min | cx.rng.next() >> 3)] {
         let head = vec![l, hi];
